@@ -3,6 +3,7 @@ package props
 import (
 	"fmt"
 	"go/token"
+	"go/types"
 	"strings"
 
 	"fsverif/eng"
@@ -33,6 +34,92 @@ type metaLoop struct {
 	pins    map[string]bool // metadata mode on, STAT with a stat, not the listing file's own name
 }
 
+// metaModeKeys finds every reading of "metadata mode is on" in fn (helpers
+// included): the test `r.metadataOnly != nil` itself and loads of a local or
+// captured variable whose only assignment is that test. It returns explorer
+// keys mapped to the truth they have when the mode is ON, and whether every
+// such variable is assigned exactly once.
+func metaModeKeys(c *Ctx, fn *ssa.Function, x *eng.Explorer) (map[string]bool, bool) {
+	keys := map[string]bool{}
+	clean := true
+	isTest := func(v ssa.Value) (on bool, ok bool) {
+		bo, isB := v.(*ssa.BinOp)
+		if !isB || (bo.Op != token.NEQ && bo.Op != token.EQL) {
+			return false, false
+		}
+		k, isC := bo.Y.(*ssa.Const)
+		if !isC || !k.IsNil() || !isFieldLoad(bo.X, "fsutil.receiver.metadataOnly") {
+			return false, false
+		}
+		return bo.Op == token.NEQ, true
+	}
+	cellOn := func(root *ssa.Alloc) (on bool, ok bool) {
+		n := 0
+		for _, st := range c.P.Census().CellStorers(root) {
+			eng.InstrsShallow(st, func(in ssa.Instruction) {
+				s, isS := in.(*ssa.Store)
+				if !isS {
+					return
+				}
+				var a *ssa.Alloc
+				switch ad := s.Addr.(type) {
+				case *ssa.Alloc:
+					a = ad
+				case *ssa.FreeVar:
+					a = c.P.Census().Root(ad)
+				}
+				if a != root {
+					return
+				}
+				n++
+				if o, isT := isTest(s.Val); isT {
+					on, ok = o, true
+				} else {
+					clean = false
+				}
+			})
+		}
+		if n != 1 {
+			if ok {
+				clean = false
+			}
+			return false, false
+		}
+		return on, ok
+	}
+	eng.Instrs(fn, func(in ssa.Instruction) {
+		v, isV := in.(ssa.Value)
+		if !isV {
+			return
+		}
+		if on, ok := isTest(v); ok {
+			keys[x.KeyAtEntry(v)] = on
+			return
+		}
+		u, isU := in.(*ssa.UnOp)
+		if !isU || u.Op != token.MUL {
+			return
+		}
+		var root *ssa.Alloc
+		switch ad := u.X.(type) {
+		case *ssa.Alloc:
+			root = ad
+		case *ssa.FreeVar:
+			root = c.P.Census().Root(ad)
+		}
+		if root == nil {
+			return
+		}
+		if bt, isBasic := root.Type().(*types.Pointer).Elem().Underlying().(*types.Basic); !isBasic || bt.Kind() != types.Bool {
+			return
+		}
+		if on, ok := cellOn(root); ok {
+			keys[x.KeyAtEntry(u)] = on
+		}
+	})
+	return keys, clean
+}
+
 func getMetaLoop(c *Ctx, rule string) *metaLoop {
 	loop := recvLoop(c, rule)
 	if loop == nil {
@@ -53,14 +140,11 @@ func getMetaLoop(c *Ctx, rule string) *metaLoop {
 		m.sel, _ = call.(*ssa.Call)
 	}
 	x := c.explorer(loop)
-	// metadataTransfer flag: captured bool variable
-	eng.Instrs(loop, func(in ssa.Instruction) {
-		if u, ok := in.(*ssa.UnOp); ok && u.Op == token.MUL {
-			if fv, isFV := u.X.(*ssa.FreeVar); isFV && fv.Name() == "metadataTransfer" {
-				m.pins[x.KeyAtEntry(u)] = true
-			}
-		}
-	})
+	// the metadata-mode flag, however it is named and wherever it is kept
+	mk, _ := metaModeKeys(c, loop, x)
+	for k, on := range mk {
+		m.pins[k] = on
+	}
 	if nt := statNilTest(c, loop); nt != nil {
 		m.pins[x.KeyAtEntry(nt.Cond)] = false
 	}
@@ -138,31 +222,14 @@ func r19_2(c *Ctx, rule string) {
 	// nothing is recorded outside metadata mode
 	off := map[string]bool{}
 	x := c.explorer(m.loop)
-	eng.Instrs(m.loop, func(in ssa.Instruction) {
-		if u, ok := in.(*ssa.UnOp); ok && u.Op == token.MUL {
-			if fv, isFV := u.X.(*ssa.FreeVar); isFV && fv.Name() == "metadataTransfer" {
-				off[x.KeyAtEntry(u)] = false
-			}
-		}
-	})
-	c.ObUnreachable(rule, base+"/only-in-metadata-mode", m.loop, off, func(in ssa.Instruction) bool { return in == ssa.Instruction(m.alloc) }, "recording a listing entry", "no metadata-only selector was given")
-	// the flag is `r.metadataOnly != nil`
-	run := m.loop.Parent()
-	okFlag := false
-	for _, fv := range m.loop.FreeVars {
-		if fv.Name() != "metadataTransfer" {
-			continue
-		}
-		if root := c.P.Census().Root(fv); root != nil && root.Parent() == run {
-			for _, r := range eng.Referrers(root) {
-				if s, isS := r.(*ssa.Store); isS && s.Addr == ssa.Value(root) {
-					if bo, isB := s.Val.(*ssa.BinOp); isB && bo.Op == token.NEQ && isFieldLoad(bo.X, "fsutil.receiver.metadataOnly") {
-						okFlag = len(c.P.Census().CellStorers(root)) == 1
-					}
-				}
-			}
-		}
+	mk, clean := metaModeKeys(c, m.loop, x)
+	for k, on := range mk {
+		off[k] = !on
 	}
+	c.ObUnreachable(rule, base+"/only-in-metadata-mode", m.loop, off, func(in ssa.Instruction) bool { return in == ssa.Instruction(m.alloc) }, "recording a listing entry", "no metadata-only selector was given")
+	// the flag is `r.metadataOnly != nil`, assigned once
+	run := m.loop.Parent()
+	okFlag := len(mk) > 0 && clean
 	c.R.Check(okFlag, rule, c.name(run)+"/mode-flag", c.P.Pos(run.Pos()), "metadata mode <=> a MetadataOnly selector was given", "the metadata-mode flag is not `r.metadataOnly != nil` (or is reassigned)")
 }
 
@@ -254,7 +321,7 @@ func r19_5(c *Ctx, rule string) {
 	isUpd := c.callPred("fsutil.(*dynamicWalker).update")
 	ex := c.explorer(m.loop)
 	ex.From = m.sel
-	rej := map[string]bool{m.sel.Name(): false}
+	rej := map[string]bool{c.reg(m.sel): false}
 	for k, v := range m.pins {
 		rej[k] = v
 	}
@@ -278,7 +345,7 @@ func r19_5(c *Ctx, rule string) {
 	}
 	ex2 := c.explorer(m.loop)
 	ex2.From = m.sel
-	as := map[string]bool{m.sel.Name(): false}
+	as := map[string]bool{c.reg(m.sel): false}
 	x := c.explorer(m.loop)
 	for _, call := range c.P.CallsTo(m.loop, "(io/fs.FileMode).IsDir") {
 		if cl, ok := call.(*ssa.Call); ok {
@@ -374,13 +441,10 @@ func r19_6(c *Ctx, rule string) {
 	// only in metadata mode
 	x := c.explorer(run)
 	off := map[string]bool{}
-	eng.Instrs(run, func(in ssa.Instruction) {
-		if u, ok := in.(*ssa.UnOp); ok && u.Op == token.MUL {
-			if al, isA := u.X.(*ssa.Alloc); isA && al.Comment == "metadataTransfer" {
-				off[x.KeyAtEntry(u)] = false
-			}
-		}
-	})
+	mk, _ := metaModeKeys(c, run, x)
+	for k, on := range mk {
+		off[k] = !on
+	}
 	if len(off) == 0 {
 		c.R.Undecided(rule, base+"/only-in-metadata-mode", c.pos(open), "cannot find the metadata-mode flag in receiver.run")
 	} else {
@@ -397,7 +461,7 @@ func r19_6(c *Ctx, rule string) {
 	closes := map[string]bool{}
 	for _, call := range c.P.CallsTo(run, "(*os.File).Close") {
 		if cl, ok := call.(*ssa.Call); ok {
-			closes[cl.Name()] = true
+			closes[c.reg(cl)] = true
 		}
 	}
 	ex := c.explorer(run)
@@ -408,7 +472,7 @@ func r19_6(c *Ctx, rule string) {
 		if !ex.IsSuccessReturn(in, st) {
 			return false
 		}
-		return !closes[ex.KeyOf(in.(*ssa.Return).Results[0], st)]
+		return !closes[ex.SourceKey(in.(*ssa.Return).Results[0], st)]
 	}
 	ex.StopAtTarget = true
 	h := ex.Run()
